@@ -71,6 +71,28 @@ def raggedSlice (a : RA α) (ss : Option (List Int)) (es : Option (List Int)) : 
   let flat := buildIndices 1 ((starts.zip lens).map (fun p => (p.1, p.1 + p.2, p.2.toNat)))
   (Np.gather a.data flat).map (fun d => cutRows d (lens.map Int.toNat))
 
+/-- the common tail of `ragged_slice`: absolute `starts` / `ends` → lengths → `RaggedView.get_flat_indices` → gather -/
+def sliceByBounds (data : List α) (starts ends : List Int) : Option (List (List α)) :=
+  let lens := List.zipWith (fun e s => max (e - s) 0) ends starts
+  let flat := buildIndices 1 ((starts.zip lens).map (fun p => (p.1, p.1 + p.2, p.2.toNat)))
+  (Np.gather data flat).map (fun d => cutRows d (lens.map Int.toNat))
+
+/-- `ragged_slice(array, starts, ends)` for a 1-D ndarray: `base_starts = 0`, `base_ends = array.size`; one window of
+the whole array per (start, end) pair (the two vectors must have equal lengths) -/
+def raggedSlice1d (a : List α) (ss es : List Int) : Option (List (List α)) :=
+  if ss.length ≠ es.length then none else
+  let n : Int := a.length
+  sliceByBounds a ss (es.map (fun e => if e < 0 then n + e else min (0 + e) n))
+
+/-- `ragged_slice(array, starts, ends)` for a 2-D ndarray with `c` columns: `base_starts = arange(n_rows) * c`,
+`base_ends = base_starts + c` -/
+def raggedSlice2d (m : List (List α)) (c : Nat) (ss es : List Int) : Option (List (List α)) :=
+  if ss.length ≠ m.length ∨ es.length ≠ m.length then none else
+  let baseS : List Int := (List.range m.length).map (fun i => ((i * c : Nat) : Int))
+  let baseE : List Int := baseS.map (· + (c : Int))
+  sliceByBounds m.flatten (List.zipWith (· + ·) baseS ss)
+    ((baseS.zip (baseE.zip es)).map (fun t => if t.2.2 < 0 then t.2.1 + t.2.2 else min (t.1 + t.2.2) t.2.1))
+
 /-- `_as_padded_matrix(fill_value, side)` -/
 def paddedMatrix (a : RA α) (fill : α) (right : Bool) : Option (List (List α)) :=
   let n := a.shape.nRows
